@@ -11,7 +11,7 @@ Definition ascii_lower (x : str) : str := map (fun c => if (65 <=? c) && (c <=? 
 Inductive ccase :=
 | CXls (v : option xls_view) (impl : bool)            (* is_xls_encrypted *)
 | COoxml (es : option (list str)) (impl : bool)        (* is_ooxml_encrypted *)
-| CPpt (es : option (list str)) (impl : bool)          (* is_ppt_encrypted *)
+| CPpt (aware : bool) (es : option (list str)) (token : option N) (impl : bool)   (* is_ppt_encrypted *)
 | CDoc (wd : bytes) (impl : N)                         (* read_doc: 0 encrypted, 1 rejected as not-a-doc, 2 went on *)
 | COdf (v : odf_view) (impl : bool)                    (* is_odf_encrypted *)
 | CZip (ms : list zmember) (n : nat) (impl : N)        (* _extract_from_zip: results before the end, 0 done / 1 encrypted / 2 other error *)
@@ -29,7 +29,7 @@ Definition corr_case_gen (legacy : bool) (c : ccase) : bool :=
   match c with
   | CXls v impl => Bool.eqb (xls_detect ascii_lower v) impl
   | COoxml es impl => Bool.eqb (ooxml_detect ascii_lower es) impl
-  | CPpt es impl => Bool.eqb (ppt_detect ascii_lower es) impl
+  | CPpt aware es token impl => Bool.eqb (ppt_detect_tok ascii_lower aware es token) impl
   | CDoc wd impl => doc_code (doc_check wd) =? impl
   | COdf v impl => Bool.eqb (odf_detect v) impl
   | CZip ms n impl =>
